@@ -20,6 +20,18 @@
 //   mode 3: n[1] = k, n[2] = probed cell of the 5x5 ring grid (0..24 -> (-1..3, -1..3)), n[3..3+k) = cells of the 3x3 grid in insertion
 //           order; stands for ALL single mutations (erase_advance of every non-empty subset of the entries, erase of each entry,
 //           insert at each of the 9 cells) between two lookups of the probed point
+//   mode 4: tall chain (subcheck kdchain): n[1] = dimensions, n[2] = shape (enum ChainShape), n[3] = number of entries (= depth of
+//           the tree: it is never rebalanced), n[4] = stack size in KiB of the thread on which the whole case runs (tree built,
+//           queried, partly erased and DESTROYED there), n[5] = salt (which entries are probed / erased; bit 0: destroy the tree
+//           full, without the erase phase)
+//
+// Iterators: Iterator declares std::forward_iterator_tag, so a copy is an independent position, `it++` returns the old
+// position and ++(it++) == it (multipass guarantee). The iteration part of the battery therefore walks to a position
+// chosen by the case (every position in the small exhaustive scopes) with a mix of ++it / it++ / continuing on the
+// returned iterator / continuing on an advanced copy, and from there walks the iterator returned by it++, a copy taken
+// before it and `it` itself to the end: each must visit exactly the entries the reference walk visits from that position.
+// Sweeps advance and erase through the same mix of styles (erase_advance on a copy which is then assigned back); nothing
+// is ever asked of an iterator other than the one handed to erase_advance once erase_advance ran.
 // packed operation: code (1 digit) + 10 * a, with
 //   INSERT/ERASE/EMPLACE: a = (x+1) + 100 (y+1) + 10000 (z+1) + 10^6 value
 //   ERASE_LIVE:           a = r            erase the (r mod live)-th model entry
@@ -32,8 +44,11 @@
 #pragma once
 
 #include <math.h>
+#include <pthread.h>
 
 #include <array>
+#include <exception>
+#include <functional>
 #include <string>
 #include <vector>
 
@@ -216,6 +231,51 @@ struct Stats {
 
 enum Battery { LIGHT = 0, FULL = 1, LOOKUPS = 2, FULL_ABSENT = 3, MEDIUM = 4 };
 
+// Tall chains (mode 4). The tree is never rebalanced, so n entries inserted in one of these orders form a chain n levels deep.
+enum ChainShape : unsigned {
+  CHAIN_ASCENDING = 0, // (i,i): every entry goes to after_or_equal
+  CHAIN_DESCENDING = 1, // (n-1-i, n-1-i): every entry goes to before
+  CHAIN_ALL_EQUAL = 2, // n entries at one point (values i mod 3: equal (point, value) pairs too)
+  CHAIN_HALF_HALF = 3, // ascending diagonal, then the second half at the deepest point
+  CHAIN_ZIGZAG = 4, // 0, n-1, 1, n-2, ... on every axis: after, before, after, ...
+  CHAIN_STAIRCASE = 5, // one axis grows per step, the others tie: (0,0) (1,0) (1,1) (2,1) ...
+  NUM_CHAIN_SHAPES = 6
+};
+static const char* kChainNames[NUM_CHAIN_SHAPES] = {"ascending", "descending", "all-equal", "half-half", "zigzag", "staircase"};
+
+// Runs f on a new thread whose stack has the given size and waits for it. Secondary threads have small default stacks
+// on several platforms (musl 128 KiB, macOS 512 KiB); a tree operation whose stack use grows with the height of the tree
+// overflows there long before it does on an 8 MiB main-thread stack. A verif::Fail / exception thrown by f is rethrown here.
+inline void run_on_small_stack(size_t kib, const std::function<void()>& f) {
+  struct Arg {
+    const std::function<void()>* f;
+    std::exception_ptr err;
+  } arg{&f, nullptr};
+  pthread_attr_t a;
+  if (pthread_attr_init(&a) != 0 || pthread_attr_setstacksize(&a, kib * 1024) != 0) throw std::logic_error("C13: cannot set the thread stack size");
+  pthread_t th;
+  int rc = pthread_create(
+      &th, &a, [](void* p) -> void* {
+        Arg* g = static_cast<Arg*>(p);
+        try {
+          (*g->f)();
+        } catch (...) {
+          g->err = std::current_exception();
+        }
+        return nullptr;
+      },
+      &arg);
+  pthread_attr_destroy(&a);
+  if (rc != 0) throw std::logic_error("C13: cannot create the small-stack thread");
+  pthread_join(th, nullptr);
+  if (arg.err) std::rethrow_exception(arg.err);
+}
+
+struct ChainInfo {
+  bool bfs_is_insertion_order = false; // the iteration visited the entries in insertion order: the tree is one chain
+  uint64_t erased = 0;
+};
+
 template <size_t D, typename P = PointOf<D>>
 struct KD {
   typedef typename P::T PT;
@@ -244,7 +304,10 @@ struct KD {
 
   // ---------------------------------------------------------------- query battery pieces
 
-  static void check_size_and_iteration(const Tree& t, const Model& m, const Where& w) {
+  static E deref(const typename Tree::Iterator& it) { return from(it->first, it->second); }
+
+  // positions: 0 = none, 1 / 2 = that many positions chosen by sel, >= 3 = every position
+  static void check_size_and_iteration(const Tree& t, const Model& m, const Where& w, uint64_t sel = 0, unsigned positions = 1) {
     VCHECK(t.size() == m.size(), "size", "size() is ", t.size(), " model holds ", m.size(), " entries after ", w);
     std::vector<E> got;
     size_t guard = 0;
@@ -254,11 +317,85 @@ struct KD {
       got.push_back(from(it->first, it->second));
       VCHECK((*it).first == it->first && (*it).second == it->second, "iterator-deref", "operator* and operator-> disagree after ", w);
     }
+    std::vector<E> seq(got);
     std::vector<E> exp(m);
     std::sort(got.begin(), got.end());
     std::sort(exp.begin(), exp.end());
     VCHECK(got == exp, "iteration-multiset", "iteration yields ", show(got), " but the model holds ", show(exp), " after ", w);
     VCHECK((t.begin() == t.end()) == m.empty(), "begin-end", "begin()==end() is ", (t.begin() == t.end()), " with ", m.size(), " entries after ", w);
+    if (seq.empty() || positions == 0) return;
+    if (positions >= 3) {
+      for (size_t p = 0; p < seq.size(); p++) check_iterator_position(t, seq, p, mix(sel, p), w);
+    } else {
+      for (unsigned k = 0; k < positions; k++) {
+        uint64_t h = mix(sel, 0x17E2 + k);
+        check_iterator_position(t, seq, h % seq.size(), h >> 8, w);
+      }
+    }
+  }
+
+  // seq: what the plain ++it walk from begin() visits. Walks to position p with a mix of stepping styles chosen by h,
+  // then checks it++ there and walks the returned iterator, a copy and the iterator itself to the end.
+  static void check_iterator_position(const Tree& t, const std::vector<E>& seq, size_t p, uint64_t h, const Where& w) {
+    typedef typename Tree::Iterator It;
+    const size_t n = seq.size();
+    const It end = t.end();
+    It it = t.begin();
+    for (size_t k = 0; k < p; k++) {
+      switch (mix(h, k) % 4) {
+        case 0: ++it; break;
+        case 1: it++; break;
+        case 2: { // go on with the iterator it++ returned
+          It old = it++;
+          VCHECK(old != end && deref(old) == seq[k], "iterator-postinc-result", "the iterator returned by it++ at position ", k, " of ", n, " does not designate the entry it was at, after ", w);
+          it = old;
+          ++it;
+          break;
+        }
+        default: { // go on with an advanced copy; the original must not move
+          It c(it);
+          ++c;
+          VCHECK(it != end && deref(it) == seq[k], "iterator-copy-independent", "advancing a copy of the iterator at position ", k, " of ", n, " moved the original, after ", w);
+          it = c;
+          break;
+        }
+      }
+      VCHECK(it != end, "iterator-walk-stops-early", "a walk mixing ++it, it++ and iterator copies compares equal to end() after ", k + 1, " steps of ", n, " entries, after ", w);
+      VCHECK(deref(it) == seq[k + 1], "iterator-walk-order", "a walk mixing ++it, it++ and iterator copies is at ", show(deref(it).c), "=", deref(it).v, " after ", k + 1,
+          " steps where the plain ++it walk is at ", show(seq[k + 1].c), "=", seq[k + 1].v, ", after ", w);
+    }
+    It before(it);
+    It old = it++;
+    VCHECK(old == before && !(old != before) && old != end, "iterator-postinc-result", "the iterator returned by it++ at position ", p, " of ", n, " does not compare equal to a copy taken before, after ", w);
+    VCHECK(deref(old) == seq[p], "iterator-postinc-result", "the iterator returned by it++ at position ", p, " of ", n, " designates ", show(deref(old).c), "=", deref(old).v, " instead of ", show(seq[p].c), "=", seq[p].v, ", after ", w);
+    VCHECK((it == end) == (p + 1 == n), "iterator-postinc-advances", "after it++ at position ", p, " of ", n, " it==end() is ", (it == end), ", after ", w);
+    if (p + 1 < n) VCHECK(deref(it) == seq[p + 1], "iterator-postinc-advances", "after it++ at position ", p, " of ", n, " the iterator is not at the next entry, after ", w);
+    {
+      It nx(old);
+      ++nx;
+      VCHECK(nx == it && !(nx != it), "iterator-postinc-continuation", "++(it++) != it at position ", p, " of ", n, ", after ", w);
+    }
+    // the three iterators are independent positions: each visits exactly what the reference walk visits from there on
+    auto walk = [&](It& c, size_t from_pos, bool post, const char* clause, const char* what) { // consumes c
+      size_t k = from_pos;
+      while (c != end) {
+        VCHECK(k < n, clause, "continuing from ", what, " at position ", p, " of ", n, " visits more entries than the plain walk, after ", w);
+        E cur;
+        if (post) {
+          auto pr = *c++;
+          cur = from(pr.first, pr.second);
+        } else {
+          cur = deref(c);
+          ++c;
+        }
+        VCHECK(cur == seq[k], clause, "continuing from ", what, " at position ", p, " of ", n, " visits ", show(cur.c), "=", cur.v, " where the plain walk visits ", show(seq[k].c), "=", seq[k].v, ", after ", w);
+        k++;
+      }
+      VCHECK(k == n, clause, "continuing from ", what, " at position ", p, " of ", n, " reaches end() after ", k - from_pos, " entries; the plain walk visits ", n - from_pos, " from there, after ", w);
+    };
+    walk(old, p, false, "iterator-postinc-continuation", "the iterator returned by it++");
+    walk(before, p, (h >> 20) & 1, "iterator-copy-independent", "a copy of the iterator taken before it++");
+    walk(it, p + 1, !((h >> 20) & 1), "iterator-walk-order", "the incremented iterator");
   }
 
   static void check_point(const Tree& t, const Model& m, const std::array<int64_t, D>& c, const Where& w) {
@@ -324,7 +461,12 @@ struct KD {
   // battery: what is asked after a mutation
   // order = 0: the live points are visited in sorted order; otherwise starting at the (order/2 mod n)-th, downwards if order is odd
   static void check_state(const Tree& t, const Model& m, int64_t side, Battery level, uint64_t salt, const Where& w, uint64_t order = 0) {
-    check_size_and_iteration(t, m, w);
+    // iterator positions (cost: every iterator copy copies its queue): every position where the fullest battery runs (after the
+    // insertions of an exhaustive block, at the end of a history) while the tree is small, otherwise one chosen by the
+    // case - with the cheapest battery (innermost exhaustive loops) in a quarter of the states
+    uint64_t sel = mix(salt, w.i + 0x1735);
+    unsigned positions = (level == FULL_ABSENT) ? (m.size() <= 8 ? 3 : 2) : (level == LOOKUPS) ? ((sel >> 40) % 4 == 0) : 1;
+    check_size_and_iteration(t, m, w, sel, positions);
     // every distinct live point: exact lookup + the single-cell box around it (two-sided descent must find it too)
     std::vector<std::array<int64_t, D>> live;
     for (const E& e : m) live.push_back(e.c);
@@ -429,6 +571,105 @@ struct KD {
     return false;
   }
 
+  // how == 0: the plain form. The iterator that was not handed to erase_advance is never used again before it is assigned to.
+  static void erase_styled(Tree& t, typename Tree::Iterator& it, uint64_t how) {
+    if (how & 1) {
+      auto c = it;
+      t.erase_advance(c);
+      it = c;
+    } else {
+      t.erase_advance(it);
+    }
+  }
+  static void advance_styled(typename Tree::Iterator& it, uint64_t how) {
+    switch ((how >> 1) % 4) {
+      case 0: ++it; break;
+      case 1: it++; break;
+      case 2: { // go on with the iterator it++ returned
+        auto old = it++;
+        it = old;
+        ++it;
+        break;
+      }
+      default: { // go on with an advanced copy
+        auto c = it;
+        ++c;
+        it = c;
+        break;
+      }
+    }
+  }
+
+  // One pass over the tree that removes every entry the predicate selects with erase_advance and steps over the others;
+  // updates the model. style == 0: ++it and erase_advance(it) only. Otherwise every step picks (by hash of style and
+  // step number) how it advances - ++it, it++, continuing on the iterator it++ returned, continuing on an advanced copy -
+  // and how it erases - erase_advance(it), or erase_advance on a copy that is then assigned back (the iterator that was
+  // not handed to erase_advance is never used again before it is assigned to).
+  template <typename Pred>
+  static void sweep(Tree& t, Model& m, Pred&& pred, uint64_t style, Stats& st, const Where& here) {
+    std::vector<E> kept, erased, exp_kept, exp_erased;
+    for (size_t j = 0; j < m.size(); j++) {
+      if (pred(m[j])) {
+        exp_erased.push_back(m[j]);
+        if (m.size() >= 3 && shares_coordinate_cheap(m, j)) st.nontrivial = true;
+      } else exp_kept.push_back(m[j]);
+    }
+    size_t guard = 0;
+    for (auto it = t.begin(); it != t.end();) {
+      VCHECK(++guard <= m.size() + 1, "sweep-overrun", "an erase_advance sweep visits more than the ", m.size(), " entries of the tree at ", here);
+      E cur = from(it->first, it->second);
+      uint64_t how = style ? mix(style, guard) : 0;
+      if (pred(cur)) {
+        erased.push_back(cur);
+        erase_styled(t, it, how);
+      } else {
+        kept.push_back(cur);
+        advance_styled(it, how);
+      }
+    }
+    std::sort(kept.begin(), kept.end());
+    std::sort(erased.begin(), erased.end());
+    std::sort(exp_kept.begin(), exp_kept.end());
+    std::sort(exp_erased.begin(), exp_erased.end());
+    const char* mixed = style ? " (the sweep mixes ++it, it++, iterator copies and erase_advance on a copy)" : "";
+    VCHECK(kept == exp_kept, "sweep-visits-survivors-once", "the sweep visited the surviving entries ", show(kept), " but the survivors are ", show(exp_kept), mixed, " at ", here);
+    VCHECK(erased == exp_erased, "sweep-erased", "the sweep erased ", show(erased), " but the predicate selects ", show(exp_erased), mixed, " at ", here);
+    m = exp_kept;
+  }
+
+  // The same pass with the entries to remove chosen by visit number (every stride-th entry met), for trees in which many
+  // entries are equal as (point, value) pairs: whatever the sweep met - stepped over or erased - must be the model's
+  // multiset, every entry exactly once; the model becomes what was stepped over.
+  static uint64_t sweep_by_visit(Tree& t, Model& m, uint64_t stride, uint64_t offset, uint64_t style, const Where& here) {
+    std::vector<E> kept, met;
+    uint64_t erased = 0;
+    size_t guard = 0;
+    for (auto it = t.begin(); it != t.end();) {
+      VCHECK(++guard <= m.size() + 1, "sweep-overrun", "an erase_advance sweep visits more than the ", m.size(), " entries of the tree at ", here);
+      E cur = from(it->first, it->second);
+      met.push_back(cur);
+      uint64_t how = style ? mix(style, guard) : 0;
+      if (guard % stride == offset % stride) {
+        erased++;
+        erase_styled(t, it, how);
+      } else {
+        kept.push_back(cur);
+        advance_styled(it, how);
+      }
+    }
+    std::vector<E> exp(m);
+    std::sort(met.begin(), met.end());
+    std::sort(exp.begin(), exp.end());
+    VCHECK(met == exp, "sweep-visits-survivors-once", "a sweep erasing every ", stride, "th entry it meets met ", met.size(), " entries ", show(met), " but the tree held ", exp.size(), " ", show(exp),
+        style ? " (the sweep mixes ++it, it++, iterator copies and erase_advance on a copy)" : "", " at ", here);
+    m = kept;
+    return erased;
+  }
+
+  // shares_coordinate is quadratic over a sweep; beyond 2000 entries (tall chains, which decide non-triviality
+  // from their shape) it is not evaluated
+  static bool shares_coordinate_cheap(const Model& m, size_t idx) { return m.size() <= 2000 && shares_coordinate(m, idx); }
+
   // ---------------------------------------------------------------- one history
 
   // q == nullptr: mode 0 (the battery after every mutation); otherwise mode 2: the lookups between mutations are the
@@ -532,32 +773,8 @@ struct KD {
               for (size_t d = 0; d < D; d++) h = mix(h, static_cast<uint64_t>(e.c[d]));
               return (h % 8) < s.t;
             };
-            std::vector<E> kept, erased, exp_kept, exp_erased;
-            for (size_t j = 0; j < m.size(); j++) {
-              if (pred(m[j])) {
-                exp_erased.push_back(m[j]);
-                if (m.size() >= 3 && shares_coordinate(m, j)) st.nontrivial = true;
-              } else exp_kept.push_back(m[j]);
-            }
-            size_t guard = 0;
-            for (auto it = t.begin(); it != t.end();) {
-              VCHECK(++guard <= m.size() + 1, "sweep-overrun", "an erase_advance sweep visits more than the ", m.size(), " entries of the tree at ", here);
-              E cur = from(it->first, it->second);
-              if (pred(cur)) {
-                erased.push_back(cur);
-                t.erase_advance(it);
-              } else {
-                kept.push_back(cur);
-                ++it;
-              }
-            }
-            std::sort(kept.begin(), kept.end());
-            std::sort(erased.begin(), erased.end());
-            std::sort(exp_kept.begin(), exp_kept.end());
-            std::sort(exp_erased.begin(), exp_erased.end());
-            VCHECK(kept == exp_kept, "sweep-visits-survivors-once", "the sweep visited the surviving entries ", show(kept), " but the survivors are ", show(exp_kept), " at ", here);
-            VCHECK(erased == exp_erased, "sweep-erased", "the sweep erased ", show(erased), " but the predicate selects ", show(exp_erased), " at ", here);
-            m = exp_kept;
+            // a third of the sweeps use ++it / erase_advance(it) only, the others mix the stepping styles
+            sweep(t, m, pred, (s.r % 3) == 0 ? 0 : (mix(s.r, 0x57E9) | 1), st, here);
             break;
           }
           default:
@@ -574,7 +791,7 @@ struct KD {
             for (size_t k = 0; k < probed.size(); k++) check_point(t, m, probed[k], here);
           }
           if (q->rest == 0) VCHECK(t.size() == m.size(), "size", "size() is ", t.size(), " model holds ", m.size(), " entries after ", here);
-          else if (q->rest == 1) check_size_and_iteration(t, m, here);
+          else if (q->rest == 1) check_size_and_iteration(t, m, here, mix(salt, i), 1);
           else if (q->rest == 2 || (st.mutations % 8) == 0) check_state(t, m, side, LIGHT, salt, here, 1 + mix(salt, i));
           continue;
         }
@@ -586,6 +803,133 @@ struct KD {
       if (q) check_state(t, m, side, level == FULL ? FULL_ABSENT : LIGHT, salt, Where{ops, n, n, "at the end"}, 1 + salt);
     } // the tree is destroyed here, in whatever state the history left it
     VCHECK(!heap.leaked(), "leak", heap.excess(), " heap block(s) allocated during the history are still live after the tree was destroyed and LeakSanitizer reports a leak");
+  }
+
+  // ---------------------------------------------------------------- tall chains (mode 4)
+
+  static std::array<int64_t, D> chain_point(unsigned shape, uint64_t n, uint64_t i, uint64_t salt) {
+    std::array<int64_t, D> c;
+    for (size_t d = 0; d < D; d++) {
+      uint64_t v;
+      switch (shape) {
+        case CHAIN_ASCENDING: v = i; break;
+        case CHAIN_DESCENDING: v = n - 1 - i; break;
+        case CHAIN_ALL_EQUAL: v = ((salt >> 8) + d) % 5; break;
+        case CHAIN_HALF_HALF: v = std::min<uint64_t>(i, n / 2); break;
+        case CHAIN_ZIGZAG: v = (i & 1) ? n - 1 - i / 2 : i / 2; break;
+        case CHAIN_STAIRCASE: v = (i + D - 1 - d) / D; break;
+        default: throw std::logic_error("C13: unknown chain shape");
+      }
+      c[d] = static_cast<int64_t>(v);
+    }
+    return c;
+  }
+
+  // Everything a chain case does; runs on the small-stack thread, the tree is destroyed there too.
+  static void chain_body(unsigned shape, uint64_t n, uint64_t salt, Stats& st, ChainInfo& info) {
+    const std::string what = cat("a chain of ", n, " entries (", kChainNames[shape], ", ", D, "-D, entry i has value i mod 3)");
+    const std::string l_built = what + ", all inserted", l_erase = what + ", erase phase", l_swept = what + ", after the erases and an erase_advance sweep";
+    const int64_t top = static_cast<int64_t>(n) + 2;
+    alloc_balance::Scope heap;
+    {
+      Tree t;
+      Model m;
+      m.reserve(n);
+      for (uint64_t i = 0; i < n; i++) {
+        E e;
+        e.c = chain_point(shape, n, i, salt);
+        e.v = static_cast<int64_t>(i % 3);
+        auto it = t.insert(pt(e.c), e.v);
+        VCHECK(it->first == pt(e.c) && it->second == e.v, "insert-iterator", "the iterator returned by insert #", i, " does not designate the new entry, building ", what);
+        m.push_back(e);
+      }
+      auto queries = [&](const Where& w, uint64_t h0) {
+        check_size_and_iteration(t, m, w, mix(salt, h0), 2);
+        if (m.empty()) return;
+        // lookups: both ends of the chain, the middle, entries chosen by the salt, and points that are absent (outside the
+        // range, off the chain, erased)
+        std::vector<std::array<int64_t, D>> pts = {m.front().c, m.back().c, m[m.size() / 2].c};
+        for (unsigned k = 0; k < 5; k++) pts.push_back(m[mix(mix(salt, h0), k) % m.size()].c);
+        std::array<int64_t, D> a;
+        a.fill(-1);
+        pts.push_back(a);
+        a.fill(top);
+        pts.push_back(a);
+        a = m[m.size() / 3].c;
+        a[D - 1] += top; // off the chain
+        pts.push_back(a);
+        pts.push_back(chain_point(shape, n, mix(salt, h0 + 7) % n, salt)); // live or erased by now
+        for (const auto& c : pts) check_point(t, m, c, w);
+        // boxes: everything, nothing, inverted, single cells of live points, segments of the diagonal, a slab along one axis
+        std::array<int64_t, D> lo, hi;
+        lo.fill(-1);
+        hi.fill(top);
+        check_box(t, m, lo, hi, w);
+        check_box(t, m, hi, lo, w);
+        lo.fill(top);
+        hi.fill(top + 5);
+        check_box(t, m, lo, hi, w);
+        for (unsigned k = 0; k < 3; k++) {
+          lo = pts[k * 2];
+          hi = lo;
+          for (size_t d = 0; d < D; d++) hi[d]++;
+          check_box(t, m, lo, hi, w);
+        }
+        for (unsigned k = 0; k < 4; k++) {
+          uint64_t h = mix(mix(salt, h0), 0xB0 + k);
+          int64_t x = static_cast<int64_t>(h % (n + 2)) - 1, y = static_cast<int64_t>((h >> 24) % (n + 2)) - 1;
+          if (x > y) std::swap(x, y);
+          lo.fill(x);
+          hi.fill(y + 1);
+          if (k == 3) { // a slab: bounded along one axis only
+            size_t d = (h >> 50) % D;
+            lo.fill(-1);
+            hi.fill(top);
+            lo[d] = x;
+            hi[d] = y + 1;
+          }
+          check_box(t, m, lo, hi, w);
+        }
+      };
+      queries(Where{nullptr, 0, 0, l_built.c_str()}, 1);
+      {
+        // one chain <=> the breadth-first iteration visits the entries in insertion order (recorded, not asserted)
+        size_t k = 0;
+        bool same = true;
+        for (auto it = t.begin(); it != t.end() && k < m.size(); ++it, k++) same &= (from(it->first, it->second) == m[k]);
+        info.bfs_is_insertion_order = same && k == m.size();
+      }
+      if (!(salt & 1)) {
+        Where w{nullptr, 0, 0, l_erase.c_str()};
+        // erase(point, value): root, deepest entry, middle, five chosen by the salt; then entries that are not there
+        std::vector<size_t> idxs = {0, m.size() - 1, m.size() / 2};
+        for (unsigned k = 0; k < 5; k++) idxs.push_back(mix(salt, 0xE0 + k) % m.size());
+        for (size_t idx : idxs) {
+          if (m.size() < 4) break;
+          idx %= m.size();
+          E e = m[idx];
+          VCHECK(t.erase(pt(e.c), e.v), "lookup-lost:erase", "erase(", show(e.c), ",", e.v, ") returned false but the model holds that entry, ", w);
+          m.erase(m.begin() + idx);
+          info.erased++;
+          VCHECK(t.size() == m.size(), "size", "size() is ", t.size(), " model holds ", m.size(), " entries after erase(", show(e.c), ",", e.v, "), ", w);
+          check_point(t, m, e.c, w);
+          VCHECK(!t.erase(pt(e.c), 7), "erase-phantom", "erase(", show(e.c), ",7) returned true but no entry has the value 7, ", w);
+        }
+        {
+          std::array<int64_t, D> a;
+          a.fill(top);
+          VCHECK(!t.erase(pt(a), 0), "erase-phantom", "erase(", show(a), ",0) returned true but the model holds no such entry, ", w);
+          VCHECK(t.size() == m.size(), "size", "size() is ", t.size(), " model holds ", m.size(), " entries after erases of absent entries, ", w);
+        }
+        // an erase_advance sweep over the whole chain removing about 24 entries (every stride-th one met), stepping styles mixed
+        uint64_t stride = std::max<uint64_t>(2, m.size() / 24);
+        info.erased += sweep_by_visit(t, m, stride, mix(salt, 0x5EE9), (salt & 2) ? (mix(salt, 0x57E9) | 1) : 0, w);
+        queries(Where{nullptr, 0, 0, l_swept.c_str()}, 2);
+        // non-trivial by the rule of the property (an erased entry shared a coordinate with a live one): decided by the shape
+        if (info.erased && (shape == CHAIN_ALL_EQUAL || shape == CHAIN_HALF_HALF || shape == CHAIN_STAIRCASE)) st.nontrivial = true;
+      }
+    } // the chain is destroyed here, on the small stack
+    VCHECK(!heap.leaked(), "leak", heap.excess(), " heap block(s) allocated for the chain are still live after the tree was destroyed and LeakSanitizer reports a leak");
   }
 
   // ---------------------------------------------------------------- exhaustive block: one insertion sequence, all erase orders (2-D, 3x3)
@@ -742,7 +1086,7 @@ inline uint64_t run_probe_block(const std::vector<uint64_t>& cells, uint64_t pro
         }
         Where w{nullptr, 0, 0, "the mutation"};
         K::check_point(t, m, pc, w); // the same lookup first
-        K::check_state(t, m, 3, LOOKUPS, 0, w);
+        K::check_state(t, m, 3, LOOKUPS, mu, w);
       } catch (const Fail& f) {
         Where w = say("lookup / one mutation / same lookup");
         throw Fail{f.sig, cat(f.msg, " [", w.label, "]")};
